@@ -103,7 +103,7 @@ Print Assumptions C05_source_fixed_status_is_the_models.
 
 (* ... and the data block then holds exactly the elements of the model's object, in order *)
 Theorem C05_source_fixed_content_is_the_models : forall k sx v cnt p ob s', k < 0 -> is_arr v = false -> read_objects false None v cnt p sx = Ok (ob, s') ->
-  concat (oelems ob) = firstn (Z.to_nat (usize v * cnt)) sx /\ oty ob = v.
+  List.concat (oelems ob) = firstn (Z.to_nat (usize v * cnt)) sx /\ oty ob = v.
 Proof. exact fixed_content_model. Qed.
 Print Assumptions C05_source_fixed_content_is_the_models.
 
